@@ -8,7 +8,8 @@ import RodbusModel.Props.C14
   every successful open, however the open port was closed later (`announced_delays_conform`,
   `restart_after_port_loss`, `restart_after_disable`); there is no open attempt while the channel
   is disabled (`no_open_while_disabled`); `Shutdown` is announced exactly once, last
-  (`shutdown_final`).
+  (`shutdown_final`), also when the task ends because every handle was dropped (event `dropAll`,
+  `drop_all_ends_task`, `nothing_after_drop_all`).
 -/
 namespace Rodbus.C14Serial
 open Rodbus.Retry Rodbus.SerialLife
@@ -346,11 +347,13 @@ theorem finished_outputs (es : List Ev) : ∀ s : S, s.phase = .finished → out
     have h1 : step s e = (s, []) := by simp [step, h]
     simp [outputs, h1, ih s h]
 
-/-- a running task: `shutdown` ends it with the announcement `Shutdown`, any other event
-    announces something else and leaves it running -/
+/-- a running task: `shutdown` - and likewise dropping every handle - ends it with the
+    announcement `Shutdown`, any other event announces something else and leaves it running -/
 theorem step_running (s : S) (e : Ev) (h : s.phase ≠ .finished) :
-    (e = .shutdown ∧ (step s e).2 = [.shutdown] ∧ (step s e).1.phase = .finished) ∨
-    (e ≠ .shutdown ∧ PortState.shutdown ∉ (step s e).2 ∧ (step s e).1.phase ≠ .finished) := by
+    ((e = .shutdown ∨ e = .dropAll) ∧ (step s e).2 = [.shutdown] ∧
+      (step s e).1.phase = .finished) ∨
+    (e ≠ .shutdown ∧ e ≠ .dropAll ∧ PortState.shutdown ∉ (step s e).2 ∧
+      (step s e).1.phase ≠ .finished) := by
   rcases s with ⟨en, r, pr, ph⟩
   cases ph <;> cases e <;> cases en <;> cases pr <;>
     simp_all [step, loopTop, tryOpen, finish, disabledNow]
@@ -363,7 +366,7 @@ theorem outputs_running (es : List Ev) : ∀ s : S, s.phase ≠ .finished →
   | nil => intro s h; left; exact ⟨by simp [outputs], h⟩
   | cons e es ih =>
     intro s h
-    rcases step_running s e h with ⟨_, h2, h3⟩ | ⟨_, h2, h3⟩
+    rcases step_running s e h with ⟨_, h2, h3⟩ | ⟨_, _, h2, h3⟩
     · right
       refine ⟨[], ?_, by simp, ?_⟩
       · simp [outputs, h2, finished_outputs es _ h3]
@@ -393,12 +396,49 @@ theorem shutdown_final (mn mx : Nat) (script : List Ev) :
   unfold SerialLife.run
   rw [outputs_append]
   rcases outputs_running script (init mn mx) (by simp [init]) with ⟨a, b⟩ | ⟨l, a, b, c⟩
-  · rcases step_running _ .shutdown b with ⟨_, h2, _⟩ | ⟨h1, _, _⟩
+  · rcases step_running _ .shutdown b with ⟨_, h2, _⟩ | ⟨h1, _, _, _⟩
     · exact ⟨outputs (init mn mx) script, by simp [outputs, h2], a⟩
     · exact absurd rfl h1
   · exact ⟨l, by simp [a, finished_outputs _ _ c], b⟩
 
+/-- **drop_all_ends_task**: dropping every handle ends the task from every state it can be in
+    (disabled, waiting, port open) exactly like the shutdown command: `Shutdown` is announced,
+    nothing else, and the task is over. -/
+theorem drop_all_ends_task (s : S) (h : s.phase ≠ .finished) :
+    step s .dropAll = step s .shutdown ∧ (step s .dropAll).2 = [.shutdown] ∧
+      (step s .dropAll).1.phase = .finished := by
+  rcases s with ⟨en, r, pr, ph⟩
+  cases ph <;> simp_all [step, finish]
+
+/-- … and after ANY script that contains it nothing more is announced: whatever follows
+    (commands cannot follow: there is no handle) -/
+theorem nothing_after_drop_all (mn mx : Nat) (pre rest : List Ev) :
+    (after (init mn mx) (pre ++ [.dropAll])).phase = .finished ∧
+      outputs (after (init mn mx) (pre ++ [.dropAll])) rest = [] := by
+  have hph : (after (init mn mx) (pre ++ [.dropAll])).phase = .finished := by
+    have : after (init mn mx) (pre ++ [.dropAll]) = (step (after (init mn mx) pre) .dropAll).1 := by
+      simp [after, List.foldl_append]
+    rw [this]
+    by_cases h : (after (init mn mx) pre).phase = .finished
+    · have h1 : step (after (init mn mx) pre) .dropAll = (after (init mn mx) pre, []) := by
+        simp [step, h]
+      rw [h1]; exact h
+    · exact (drop_all_ends_task _ h).2.2
+  exact ⟨hph, finished_outputs rest _ hph⟩
+
 /-! ### non-vacuity -/
+
+open Ev PortState in
+/-- every handle dropped while waiting / while the port is open / while disabled -/
+example : SerialLife.run 40 160 [enable, absent, dropAll, present, enable] =
+    [disabled, wait 40, wait 80, shutdown] := by decide
+
+open Ev PortState in
+example : SerialLife.run 40 160 [present, enable, dropAll, lost] = [disabled, open_, shutdown] := by
+  decide
+
+open Ev PortState in
+example : SerialLife.run 40 160 [dropAll, enable] = [disabled, shutdown] := by decide
 
 open Ev PortState in
 /-- the sequence of the missed mutation: two failures, a successful open, the user disables, the
